@@ -60,9 +60,87 @@ Example all_cfgs_size :
             all_cfgs 0 = 2358.
 Proof. vm_compute. split; reflexivity. Qed.
 
-(* A call that passes every argument check of _vnacal_new_add_common and then fails the
-   assert(vnprp != NULL) of build_terms_t8: T8 2x2, mapped matrix with a 2x1 S matrix, map {1,2}. *)
-Definition rectangular_s_args : add_args :=
-  mkArgs T8 2 2 false (fun _ => true) false 0 0 2 2 [3; 4]%Z 2 1 false (Some [1; 2]%Z).
-Lemma rectangular_s_reaches_assert : exists a, add_common a = Aborts 11.
-Proof. exists rectangular_s_args. vm_compute. reflexivity. Qed.
+(* D63 (fixed): a rectangular S matrix is refused for every type but T16 / U16 -- bounded statement:
+   the 6 other public layout types, dims 1..4, every s_rows <> s_columns in 1..ports, full M, port map
+   1..max(s_rows, s_columns).  (Before the repair such a call reached assert(vnprp != NULL).) *)
+Definition rect_cases : list (caltype * (nat * nat) * (nat * nat)) :=
+  flat_map (fun ty => flat_map (fun rc =>
+    if andb (dims_allowed ty rc) (negb (is_16 ty)) then
+      let p := Nat.max (fst rc) (snd rc) in
+      flat_map (fun sr => flat_map (fun sc =>
+        if Nat.eqb sr sc then [] else [(ty, rc, (sr, sc))]) (seq 1 p)) (seq 1 p)
+    else []) dims4) public_types.
+
+Definition rect_args (c : caltype * (nat * nat) * (nat * nat)) : add_args :=
+  let '(ty, (mr, mc), (sr, sc)) := c in
+  mkArgs ty mr mc false (fun _ => true) false 0 0 (Z.of_nat mr) (Z.of_nat mc)
+         (map (fun i => Z.of_nat (3 + i)) (seq 0 (sr * sc))) (Z.of_nat sr) (Z.of_nat sc) false
+         (Some (map Z.of_nat (seq 1 (Nat.max sr sc)))).
+
+Definition is_rejected (o : outcome) : bool := match o with Rejected _ => true | _ => false end.
+
+Lemma rectangular_s_refused_all : forallb (fun c => is_rejected (add_common (rect_args c))) rect_cases = true.
+Proof. vm_compute. reflexivity. Qed.
+
+Lemma rectangular_s_refused_lemma : forall c, In c rect_cases -> is_rejected (add_common (rect_args c)) = true.
+Proof. apply forallb_forall. exact rectangular_s_refused_all. Qed.
+
+Example rect_cases_nonempty : Nat.ltb 300 (length rect_cases) = true /\
+  add_common (rect_args (T8, (2, 2), (2, 1))) = Rejected 17.
+Proof. vm_compute. split; reflexivity. Qed.
+
+(* ---------------------------------------------------------------- connectivity closure *)
+(* Specification: reflexive - symmetric - transitive closure (Warshall) of "S cell (i,j) is not known to
+   be zero", i <> j. *)
+Definition adj0 (n : nat) (s : list scell) (i j : nat) : bool :=
+  orb (Nat.eqb i j)
+      (orb (negb (scell_is_zero (nth (i * n + j) s SNull))) (negb (scell_is_zero (nth (j * n + i) s SNull)))).
+
+Definition warshall (n : nat) (r0 : nat -> nat -> bool) : nat -> nat -> bool :=
+  fold_left (fun r k => fun i j => orb (r i j) (andb (r i k) (r k j))) (seq 0 n) r0.
+
+(* memoised as a list after every step so that the computation stays polynomial *)
+Definition tab (n : nat) (r : nat -> nat -> bool) : nat -> nat -> bool :=
+  let l := flat_map (fun i => map (fun j => r i j) (seq 0 n)) (seq 0 n) in
+  fun i j => nth (i * n + j) l false.
+
+Definition closure_spec (n : nat) (s : list scell) : list bool :=
+  let r := fold_left (fun r k => tab n (fun i j => orb (r i j) (andb (r i k) (r k j)))) (seq 0 n) (tab n (adj0 n s)) in
+  flat_map (fun i => map (fun j => r i j) (seq 0 n)) (seq 0 n).
+
+Definition offdiag (n : nat) : list (nat * nat) :=
+  flat_map (fun i => flat_map (fun j => if Nat.eqb i j then [] else [(i, j)]) (seq 0 n)) (seq 0 n).
+
+(* S matrix whose non-zero (here: a parameter) off-diagonal cells are `nz'; diagonal cells unknown *)
+Definition s_of_pattern (n : nat) (nz : list (nat * nat)) : list scell :=
+  flat_map (fun i => map (fun j =>
+     if Nat.eqb i j then SNull
+     else if existsb (fun q => andb (Nat.eqb (fst q) i) (Nat.eqb (snd q) j)) nz then SParam 3 else SZero)
+     (seq 0 n)) (seq 0 n).
+
+Definition list_beq (a b : list bool) : bool :=
+  andb (Nat.eqb (length a) (length b)) (forallb (fun xy => Bool.eqb (fst xy) (snd xy)) (combine a b)).
+
+Definition conn_ok (n : nat) (nz : list (nat * nat)) : bool :=
+  let s := s_of_pattern n nz in list_beq (build_connectivity n s) (closure_spec n s).
+
+Lemma connectivity_closed_all :
+  forallb (fun n => forallb (conn_ok n) (sublists (offdiag n))) [1; 2; 3; 4] = true.
+Proof. vm_compute. reflexivity. Qed.
+
+(* Bound in the statement: n <= 4 ports, EVERY pattern of known-zero off-diagonal cells (4096 for n = 4,
+   directed, non-reciprocal patterns included): the matrix built by the union-find code is the
+   reflexive-symmetric-transitive closure. *)
+Lemma connectivity_closed_lemma :
+  forall n nz, In n [1; 2; 3; 4] -> In nz (sublists (offdiag n)) -> conn_ok n nz = true.
+Proof.
+  intros n nz Hn Hz.
+  pose proof connectivity_closed_all as H.
+  rewrite forallb_forall in H. specialize (H n Hn).
+  rewrite forallb_forall in H. exact (H nz Hz).
+Qed.
+
+Example connectivity_chain_1_3_2 :
+  (* the isolator chain: only S23 and S31 non-zero (0-based (1,2) and (2,0)): all three ports connected *)
+  build_connectivity 3 (s_of_pattern 3 [(1, 2); (2, 0)]) = [true; true; true; true; true; true; true; true; true].
+Proof. vm_compute. reflexivity. Qed.
